@@ -105,12 +105,7 @@ pub closed spec fn np(n: NodePath) -> int { bi(n.index) }
 impl NodePath {
 //@ note NodePath::new: a negative number stands for the atom that encodes it, read unsigned (the path the consensus evaluator follows for that atom)
 //@ extract fn new from src/classic/clvm_tools/node_path.rs in impl NodePath
-//@ sig r
-    ensures
-        index is None ==> np(r) == 1,
-        index matches Some(i) ==> (bi(i) >= 0 ==> np(r) == bi(i)),
-        index matches Some(i) ==> (bi(i) < 0 ==> np(r) == be_unsigned(signed_bytes(bi(i)))),
-        np(r) >= 0,
+//@ sigfile r contracts/nodepath_new.sig
 //@ before stmt @<NodePath { index: unsigned }>@
                     proof {
                         broadcast use axiom_signed_unique;
@@ -118,27 +113,19 @@ impl NodePath {
                     }
 //@ end
 //@ extract fn as_path from src/classic/clvm_tools/node_path.rs in impl NodePath
-//@ sig r
-    requires np(*self) >= 0
-    ensures be_unsigned(bv(r)) == np(*self), is_min_unsigned(bv(r))
+//@ sigfile r contracts/nodepath_as_path.sig
 //@ end
 //@ extract fn add from src/classic/clvm_tools/node_path.rs in impl NodePath
-//@ sig r
-    requires np(*self) >= 1, np(other_node) >= 1
-    ensures np(r) == compose(np(*self), np(other_node))
+//@ sigfile r contracts/nodepath_add.sig
 //@ before stmt @<NodePath::new(Some(composed_path))>@
         proof { lemma_plen_bounds(np(*self)); lemma_pow2_pos(plen(np(*self))); assert(compose(np(*self), np(other_node)) >= 0) by(nonlinear_arith)
             requires np(other_node) >= 1, pow2(plen(np(*self))) > 0, np(*self) >= pow2(plen(np(*self))), compose(np(*self), np(other_node)) == np(other_node) * (pow2(plen(np(*self))) as int) + (np(*self) - (pow2(plen(np(*self))) as int)); }
 //@ end
 //@ extract fn first from src/classic/clvm_tools/node_path.rs in impl NodePath
-//@ sig r
-    requires np(*self) >= 0
-    ensures np(r) == 2 * np(*self)
+//@ sigfile r contracts/nodepath_first.sig
 //@ end
 //@ extract fn rest from src/classic/clvm_tools/node_path.rs in impl NodePath
-//@ sig r
-    requires np(*self) >= 0
-    ensures np(r) == 2 * np(*self) + 1
+//@ sigfile r contracts/nodepath_rest.sig
 //@ end
 }
 
